@@ -1,6 +1,6 @@
 """Property -> rules wiring and MANIFEST metadata."""
 from . import facts
-from .rules import f5_trace, f6_kinds, f7_roots, f4_gc, f4_chan, f4_sched, f4_vm
+from .rules import f5_trace, f6_kinds, f7_roots, f4_gc, f4_chan, f4_sched, f4_vm, f1_isa
 
 
 def D(rec):
@@ -34,9 +34,15 @@ def c20(rec, tier):
     f4_gc.intern_funnel(rec, F)
 
 
+def c06(rec, tier):
+    F = D(rec)
+    f1_isa.run_all(rec, F)
+
+
 def c07(rec, tier):
     F = D(rec)
     f4_chan.run(rec, F)
+    f1_isa.run_rewind(rec, F)
 
 
 def c08(rec, tier):
@@ -59,11 +65,14 @@ def c16(rec, tier):
 def c17(rec, tier):
     F = D(rec)
     f4_vm.run_c17(rec, F)
+    f1_isa.run_rewind(rec, F)
 
 
 def c18(rec, tier):
     F = D(rec)
     f4_vm.run_c18(rec, F)
+    T = f1_isa.run_tables(rec, F)
+    f1_isa.run_width(rec, F, T)
 
 
 def c19(rec, tier):
@@ -72,9 +81,15 @@ def c19(rec, tier):
     f4_vm.diagnostics_gate(rec, F)
 
 
-CHECKS = {"C05": c05, "C07": c07, "C08": c08, "C09": c09, "C15": c15, "C16": c16, "C17": c17, "C18": c18, "C19": c19, "C20": c20}
+CHECKS = {"C05": c05, "C06": c06, "C07": c07, "C08": c08, "C09": c09, "C15": c15, "C16": c16, "C17": c17, "C18": c18, "C19": c19, "C20": c20}
 
 META = {
+    "C06": {
+        "text": "Row-by-row agreement of the five hand-kept ISA tables over all 79 symbolic / 74 real opcodes: len = encoder bytes = encoder line entries = 1 + operand bytes every handler path consumes (with operand widths); stack_effect as a linear form in the operand = handler net push/pop on every normally-ending path ((taken, fall-through) pairs for conditional transfers); retry-by-rewind paths rewind exactly len after all reads on a stack-neutral parked path; jump bias = len with the right sign and a range check; label offsets; stack reservation for pushes the compiler does not account for. Decides these structural clauses (necessary for the stack contract), not index-in-range of constants/locals per program.",
+        "note": "Call protocol summarised as callee+n args -> 1 result; Fiber::split summarised as removing the callee slot. Emission-side clauses (F2/F3) are added as those engines are wired in.",
+        "technique": "static analysis: table extraction from MIR switch arms as linear forms + path-sensitive dataflow over handler CFGs",
+        "design_ref": "DESIGN.md §3 C06, §2 F1",
+    },
     "C07": {
         "text": "Necessary structural conditions of exactly-once FIFO delivery decided on ChannelQueue and the two VM handlers: the buffer is mutated only by send's push_back(val) and receive's pop_front; every enqueue is control-dependent on the strict len<capacity test or on (sync && empty) and on the Ready state; the closed protocol of close()/receive; views share the buffer and respect their direction; per result variant the queue moved the value XOR the handler rewinds and re-pushes. Decides these clauses, not ordering across interleavings of several senders/receivers.",
         "note": "Trusts VecDeque's FIFO semantics; rewind width/stack neutrality are decided by F1.r (C06).",
